@@ -11,7 +11,7 @@ import (
 func init() {
 	register(&Check{
 		ID: "C05", Level: "exploration", QuickSecs: 150, ThoroughSecs: 1500,
-		Rule:        "skeletons over {'a','b',#{},&{},!{}} x {?,*,+,&,!} x seq/choice (arity<=3) up to N nodes (quick 5, thorough 6) under a rule-level action, plus one label+action decoration per node for N<=3 and a rule call variant; plus 18 left-recursive grammars (-support-left-recursion, with and without -optimize-parser; state blocks in the base alternative, in the operand and before the recursion; inputs up to length 4); every #{} appends its id to a string value (shallow copy), to a Cloner list mutated IN PLACE and to globalStore; action and predicate blocks attempt the same mutations (two scripts: all blocks return normally / all blocks also return an error); every block snapshots state and globalStore. Inputs over {a,b} up to L=3, InitState on/off, 2 generation flag sets. Every snapshot and the final store are compared with the reference (immutable store threaded through the evaluation; failing expression = store unchanged; &/! always restore; block-local changes dropped; globalStore append-only). The pool shim additionally checks the pool discipline (no double Put, no non-empty map from Get). Non-trivial = a state change was followed by a failure of an enclosing expression (reference backtracked after a #{} ran).",
+		Rule:        "skeletons over {'a','b',#{},&{},!{}} x {?,*,+,&,!} x seq/choice (arity<=3) up to N nodes (quick 5, thorough 6) under a rule-level action, plus one label+action decoration per node for N<=3 and a rule call variant; plus 18 left-recursive grammars (-support-left-recursion, with and without -optimize-parser; state blocks in the base alternative, in the operand and before the recursion; inputs up to length 4); every #{} appends its id to a string value (shallow copy), to a Cloner list mutated IN PLACE and to globalStore; action and predicate blocks attempt the same mutations (two scripts: all blocks return normally / all blocks also return an error); every block snapshots state and globalStore. Inputs over {a,b} up to L=3, InitState on/off, 2 generation flag sets. Every snapshot and the final store are compared with the reference (immutable store threaded through the evaluation; failing expression = store unchanged; &/! always restore; block-local changes dropped; globalStore append-only). The pool shim additionally checks the pool discipline (no double Put, no non-empty map from Get). Non-trivial = a state change was followed by a failure of an enclosing expression (reference backtracked after a #{} ran). Plus a rule-cycle family (three rules calling each other in a ring, ONE #{} block at every position of the ring, a lookahead predicate - & and !, over a rule alone and over a rule followed by a terminal - over every rule placed in every rule, every rule order; 972 grammars), left-recursive rules evaluated a second time at the same offset (finding D33), and the cross family (cross.go: every body with a #{} block, 16 flag sets).",
 		Assumptions: []string{"E1 loader", "position/text seen by non-action blocks are C02's concern and are masked here"},
 		Run:         runC05,
 	})
